@@ -208,7 +208,7 @@ fn strings_over(symbols: &[&str], max_len: usize) -> Vec<String> {
 }
 
 fn structured_cases(dir: PathBuf, matrix: String, tier: Tier) -> CaseSpace<String> {
-    let cases: Vec<String> = vec!["homographs-127".into(), "homographs-128".into(), "big-table".into(), "layers-15".into(), "layers-16".into(), "long-keys".into()];
+    let cases: Vec<String> = vec!["homographs-127".into(), "homographs-128".into(), "big-table".into(), "layers-15".into(), "layers-16".into(), "long-keys".into(), "escaped-keys".into()];
     CaseSpace {
         label: "lexicons/structured".into(),
         cases,
@@ -310,6 +310,43 @@ fn structured_cases(dir: PathBuf, matrix: String, tier: Tier) -> CaseSpace<Strin
                             Ok(d) => {
                                 let texts = vec!["あ".repeat(256), "あ".repeat(100), format!("a{}", "あ".repeat(130))];
                                 compare_lookups(&d, &layers, &texts, c, &mut o2);
+                            }
+                        }
+                    }
+                    "escaped-keys" => {
+                        // keys written in the CSV with \uXXXX / \u{X...} escapes (several per key): the
+                        // entries are found under the characters the escapes stand for
+                        let keys = ["あ", "あ𠮷", "𠮷𠮷a", "京都", "京", "a京", "🍣🍺", "🍣🍺🍶"];
+                        let esc = |k: &str, style: usize| -> String {
+                            let mut out = String::new();
+                            for (i, c) in k.chars().enumerate() {
+                                if c.is_ascii() {
+                                    out.push(c);
+                                } else if (c as u32) < 0x10000 && (i + style) % 2 == 0 {
+                                    out.push_str(&format!("\\u{:04x}", c as u32));
+                                } else {
+                                    out.push_str(&format!("\\u{{{:x}}}", c as u32));
+                                }
+                            }
+                            out
+                        };
+                        let mut src: Vec<Vec<Row>> = vec![Vec::new(), Vec::new()];
+                        let mut reference: Vec<Vec<Row>> = vec![Vec::new(), Vec::new()];
+                        for (i, k) in keys.iter().enumerate() {
+                            let layer = i % 2;
+                            reference[layer].push(Row::new(k, 1, 1, 100 + i as i32, P_NOUN));
+                            // headword, reading and forms stay literal: only the key is escaped
+                            let mut r = Row::new(k, 1, 1, 100 + i as i32, P_NOUN);
+                            r.surface = esc(k, i);
+                            src[layer].push(r);
+                        }
+                        match build_layers(&dir, &matrix, &src) {
+                            Err(e) => o2.fail(Failure::new("build-error", format!("{}: {}", c, e))),
+                            Ok(d) => {
+                                let texts = vec!["あ𠮷𠮷a京都".to_string(), "🍣🍺🍶a京".to_string(), "𠮷𠮷aあ".to_string()];
+                                compare_lookups(&d, &reference, &texts, c, &mut o2);
+                                let qs: Vec<String> = keys.iter().map(|k| k.to_string()).collect();
+                                compare_exact(&d, &reference, &qs, c, &mut o2);
                             }
                         }
                     }
